@@ -1106,6 +1106,9 @@ func genBatch(prop string, g *Gen, m *Model, rng *SplitMix) []Cmd {
 			}
 		}
 	}
+	for i := range cmds {
+		argvSafe(&cmds[i])
+	}
 	return cmds
 }
 
